@@ -84,6 +84,9 @@ def maxOne (x : Int) : Nat := if x ≤ 1 then 1 else x.toNat
 open SpecCircuit in
 /-- verdict for one Execute on a circuit with the hystrix closer; `openBefore` = IsOpen() before the call -/
 def verdictExec (b : Book) (cfg : LiveCfg) (openBefore : Bool) (o : ExecObs) : Option String :=
+  -- "it closes, unless forced open, …": no Closed notification may come out of a call while ForceOpen is in force
+  -- (`cfg` = the settings in force when the call completed), whatever the state was before
+  if cfg.forceOpen ∧ !cfg.disabled ∧ (notifs o.emits).contains false then some "closed although forced open" else
   match b.openedAt, o.readings.head? with
   | some T, some start =>
     if !openBefore ∨ cfg.disabled then none else
